@@ -43,6 +43,29 @@ class Project(object):
         # type: () -> list[str]
         return  self.sources + sys.path
 
+    def _find(self, name):
+        # type: (str) -> tuple[str | None, bool, str | None]
+        """Like importlib: the first component is searched along the path, every
+        further one only in the directory of its parent package.
+        Returns (filename, is_source, package directory)."""
+        path = self.get_path()
+        found = None, False, None  # type: tuple[str | None, bool, str | None]
+        for part in name.split('.'):
+            found = None, False, None
+            for p in path:
+                mpath = os.path.join(p, part)
+                for s in SUFFIXES:
+                    if os.path.exists(mpath + s):
+                        found = mpath + s, s in SOURCE_SUFFIXES, None
+                        break
+                else:
+                    if os.path.exists(os.path.join(mpath, '__init__.py')):
+                        found = os.path.join(mpath, '__init__.py'), True, mpath
+                if found[0]:
+                    break
+            path = [found[2]] if found[2] else []
+        return found
+
     def list_packages(self, root):
         # type: (str) ->  set[str]
         modules = set()
@@ -57,8 +80,12 @@ class Project(object):
             for package in sys.modules:
                 modules.add(package.partition('.')[0])
 
-        for p in path:
-            pdir = os.path.join(p, *root.split('.'))
+        if root:
+            # submodules live only in the directory the package itself is found in
+            pkgdir = self._find(root.rstrip('.'))[2]
+            path = [pkgdir] if pkgdir else []
+
+        for pdir in path:
             try:
                 dlist = os.listdir(pdir)
             except OSError:
@@ -154,27 +181,7 @@ class Project(object):
 
     def _find_module(self, name):
         # type: (str) -> tuple[str | None, bool]
-        filename = None
-        is_source = False
-        for p in self.get_path():
-            mpath = os.path.join(p, *name.split('.'))
-            for s in SUFFIXES:
-                fname = mpath + s
-                if os.path.exists(fname):
-                    filename = fname
-                    is_source = s in SOURCE_SUFFIXES
-                    break
-            else:
-                fname = os.path.join(mpath, '__init__.py')
-                if os.path.exists(fname):
-                    filename = fname
-                    is_source = True
-                    break
-
-            if filename:
-                break
-
-        return filename, is_source
+        return self._find(name)[:2]
 
     def norm_package(self, package, filename):
         # type: (str, str) -> str
